@@ -15,6 +15,7 @@ package main
 //   c20dgamma  <alpha> <ncat>                     models.DiscreteGamma + the external quantiles it used
 
 import (
+	"fmt"
 	"math"
 	"math/rand"
 	"strconv"
@@ -137,7 +138,14 @@ func init() {
 	register("c20dgamma", func(a []string) string {
 		alpha := fbits(a[0])
 		ncat := atoi(a[1])
-		r := models.DiscreteGamma(alpha, ncat)
+		r := append([]float64(nil), models.DiscreteGamma(alpha, ncat)...)
+		// asked again with the same arguments (state kept between calls must not change the answer)
+		for k := 2; k <= 3; k++ {
+			again := models.DiscreteGamma(alpha, ncat)
+			if okFloats(again) != okFloats(r) {
+				return fmt.Sprintf("again-differs call%d ", k) + okFloats(again) + " first " + okFloats(r)
+			}
+		}
 		// the externals exactly as DiscreteGamma computes them
 		g := distuv.Gamma{Alpha: alpha, Beta: alpha}
 		q := make([]float64, 0, ncat)
